@@ -251,10 +251,16 @@ func fixedWidthCounts(c *vm.Ctx, e *entry, valid []byte, w int) {
 	if strings.HasPrefix(e.name, "Ary[VarLong]") {
 		neg = refwire.EncVarLong(-1)
 	}
-	for _, t := range []struct {
+	type fillCase struct {
 		cls  string
 		fill []byte
-	}{{"negative", neg}, {"larger-than-remaining-input", append(make([]byte, w-1), 100)}} {
+	}
+	cases := []fillCase{{"negative", neg}, {"larger-than-remaining-input", append(make([]byte, w-1), 100)}}
+	if strings.HasPrefix(e.name, "Ary[Unsigned") {
+		// no negative counts: all ones is 255 / 65535 elements
+		cases = []fillCase{{"larger-than-remaining-input", neg}, {"larger-than-remaining-input", append(make([]byte, w-1), 100)}}
+	}
+	for _, t := range cases {
 		if t.cls != "negative" && len(valid)-w >= 100 {
 			continue // 100 one-byte elements could be there
 		}
